@@ -437,9 +437,31 @@ def build_driver(run, name, driver_src, repo_srcs, extra_flags=(), cc=None, libs
     cmd += [os.path.join(REPO, s) for s in repo_srcs]
     cmd += list(libs)
     rc, out = sh(cmd, timeout=600)
+    if rc != 0 and "undefined reference" in out:
+        # a source under test may come to use another part of the library: offer the rest of it as an archive
+        rc, out = sh(cmd + [rest_of_library(run, repo_srcs, cmd[0])], timeout=600)
     if rc != 0:
         raise Infra("build of %s failed:\n%s" % (name, out[-4000:]))
     return exe
+
+
+def rest_of_library(run, repo_srcs, cc="gcc"):
+    """every top-level librfn/*.c that is not already part of the build, as a static archive (members are pulled in on demand)"""
+    import glob
+    lib = run.path("librest.a")
+    if os.path.exists(lib):
+        return lib
+    objs = []
+    for src in sorted(glob.glob(os.path.join(REPO, "librfn", "*.c"))):
+        rel = os.path.relpath(src, REPO)
+        if rel in repo_srcs:
+            continue
+        o = run.path("rest-" + os.path.basename(src) + ".o")
+        rc, _ = sh(["gcc", "-std=gnu11", "-O1", "-g", "-DLIBRFN_VERIF", "-I" + os.path.join(REPO, "include"), "-c", src, "-o", o], timeout=300)
+        if rc == 0:
+            objs.append(o)
+    sh(["ar", "rcs", lib] + objs, timeout=120)
+    return lib
 
 
 def run_driver(run, exe, args, script_text=None, out_path=None, timeout=900, env=None):
@@ -790,6 +812,8 @@ def build_vrt(run, name, driver_src, repo_srcs, extra_flags=()):
         objs.append(o)
     exe = run.path(name)
     rc, out = sh(["clang", "-Wl,--wrap=memset,--wrap=memcpy,--wrap=memmove", "-o", exe] + objs, timeout=600)
+    if rc != 0 and "undefined reference" in out:
+        rc, out = sh(["clang", "-Wl,--wrap=memset,--wrap=memcpy,--wrap=memmove", "-o", exe] + objs + [rest_of_library(run, repo_srcs)], timeout=600)
     if rc != 0:
         raise Infra("link of %s failed:\n%s" % (name, out[-4000:]))
     return exe
